@@ -1016,4 +1016,92 @@ theorem indexRunesTx_refines {st : State} {blk : Block} {i : Nat} {tx : Tx} {bb 
               · rw [h1 v hv]; simp only [Spec.allocate, hs]
               · rw [h2]; simp only [Spec.allocate, hs]
 
+
+/-- the phases of a successful `indexRunesTx` -/
+theorem indexRunesTx_parts {st : State} {blk : Block} {i : Nat} {tx : Tx} {bb : Balances}
+    {st' : State} {bb' : Balances} {evs : List Event}
+    (hok : indexRunesTx st blk i tx bb = .ok (st', bb', evs)) :
+    ∃ st0 un0 st3 un alloc evs1 alloc2 burned0 burned evs2,
+      takeInputs tx.inputs st [] = .ok (st0, un0) ∧
+      phase1 st0 un0 (tx.outputs.map (fun _ => [])) blk i tx = .ok (st3, un, alloc, evs1) ∧
+      phase2 tx un alloc = .ok (alloc2, burned0) ∧
+      writeOutputs blk tx (enumFrom 0 alloc2) st3 burned0 evs1 = .ok (st', burned, evs2) ∧
+      addAllTo burned bb false = .ok bb' := by
+  rw [indexRunesTx_eq] at hok
+  cases hti : takeInputs tx.inputs st [] with
+  | panic s => rw [hti] at hok; exact absurd hok (by simp)
+  | err e => rw [hti] at hok; exact absurd hok (by simp)
+  | ok p0 =>
+    obtain ⟨st0, un0⟩ := p0
+    rw [hti] at hok
+    simp only at hok
+    cases hp1 : phase1 st0 un0 (tx.outputs.map (fun _ => [])) blk i tx with
+    | panic s => rw [hp1] at hok; exact absurd hok (by simp)
+    | err e => rw [hp1] at hok; exact absurd hok (by simp)
+    | ok p1 =>
+      obtain ⟨st3, un, alloc, evs1⟩ := p1
+      rw [hp1] at hok
+      simp only at hok
+      cases hp2 : phase2 tx un alloc with
+      | panic s => rw [hp2] at hok; exact absurd hok (by simp)
+      | err e => rw [hp2] at hok; exact absurd hok (by simp)
+      | ok p2 =>
+        obtain ⟨alloc2, burned0⟩ := p2
+        rw [hp2] at hok
+        simp only at hok
+        cases hw : writeOutputs blk tx (enumFrom 0 alloc2) st3 burned0 evs1 with
+        | panic s => rw [hw] at hok; exact absurd hok (by simp)
+        | err e => rw [hw] at hok; exact absurd hok (by simp)
+        | ok p3 =>
+          obtain ⟨st4, burned, evs2⟩ := p3
+          rw [hw] at hok
+          simp only at hok
+          cases hadd : addAllTo burned bb false with
+          | panic s => rw [hadd] at hok; exact absurd hok (by simp)
+          | err e => rw [hadd] at hok; exact absurd hok (by simp)
+          | ok bbx =>
+            rw [hadd] at hok
+            simp only [Outcome.ok.injEq, Prod.mk.injEq] at hok
+            obtain ⟨rfl, rfl, _⟩ := hok
+            exact ⟨st0, un0, st3, un, alloc, evs1, alloc2, burned0, burned, evs2, rfl, hp1, hp2, hw, hadd⟩
+
+/-- **Where rows are written.**  After a successful `indexRunesTx`:
+* a row of another transaction's outpoint is what it was after the inputs' rows were removed
+  (unchanged, or gone if spent);
+* an OP_RETURN output of this transaction has no row (given the txid had none before);
+* an output beyond the transaction's outputs has no row. -/
+theorem indexRunesTx_rows {st : State} {blk : Block} {i : Nat} {tx : Tx} {bb : Balances}
+    {st' : State} {bb' : Balances} {evs : List Event}
+    (hok : indexRunesTx st blk i tx bb = .ok (st', bb', evs))
+    (hfresh : ∀ v, AL.get st.balances ⟨tx.txid, v⟩ = none) :
+    (∀ o : OutPoint, o.txid ≠ tx.txid → AL.get st'.balances o = AL.get (spendAll st.balances tx.inputs) o) ∧
+    (∀ v, opretAt tx v = true → AL.get st'.balances ⟨tx.txid, v⟩ = none) ∧
+    (∀ v, v ≥ tx.outputs.length → AL.get st'.balances ⟨tx.txid, v⟩ = none) := by
+  obtain ⟨st0, un0, st3, un, alloc, evs1, alloc2, burned0, burned, evs2, hti, hp1, hp2, hw, _⟩ :=
+    indexRunesTx_parts hok
+  obtain ⟨hn0, _, hst0⟩ := takeInputs_ok tx.inputs st [] st0 un0 hti (by simp)
+  have hrows0 : ∀ v, rowAt (tx.outputs.map (fun _ => ([] : Balances))) v = [] := rowAt_replicate tx.outputs
+  obtain ⟨hg1, hlen1, hb1, _⟩ := phase1_ok hp1 ⟨hn0, fun v => by rw [hrows0 v]; simp⟩ (by simp) hrows0
+  obtain ⟨hr2, hnb0, hlen2, _⟩ := phase2_ok hp2 hg1 hlen1
+  have hmem : ∀ bs ∈ alloc2, (keys bs).Nodup := by
+    intro bs hm
+    obtain ⟨k, hk⟩ := List.mem_iff_getElem?.1 hm
+    have := hr2 k
+    simpa [rowAt, hk] using this
+  obtain ⟨_, _, hframe, hget⟩ := writeOutputs_ok blk tx alloc2 0 st3 burned0 evs1 st' burned evs2 hw hnb0 hmem
+  have hb3 : st3.balances = spendAll st.balances tx.inputs := by rw [hb1, hst0]
+  have hfresh3 : ∀ v, AL.get st3.balances ⟨tx.txid, v⟩ = none := by
+    intro v; rw [hb3]; exact get_spendAll_none _ _ _ (hfresh v)
+  refine ⟨fun o ho => ?_, fun v hv => ?_, fun v hv => ?_⟩
+  · rw [hframe o (Or.inl ho), hb3]
+  · rcases Nat.lt_or_ge v alloc2.length with hlt | hge
+    · have := hget v alloc2[v] (by simp [hlt])
+      simp only [Nat.zero_add] at this
+      rw [this, if_pos (Or.inr hv)]
+      exact hfresh3 v
+    · rw [hframe ⟨tx.txid, v⟩ (Or.inr (Or.inr (by simpa using hge)))]
+      exact hfresh3 v
+  · rw [hframe ⟨tx.txid, v⟩ (Or.inr (Or.inr (by simp; omega)))]
+    exact hfresh3 v
+
 end Ord.Index.RS
